@@ -9,23 +9,31 @@ From TV Require Import Lib.Interleave Model.GroupCommit.
 Import ListNotations.
 Open Scope Z_scope.
 
+(* Compact encodings (coqc parses about 10^4 numerals per second, so a case is a few dozen
+   numbers):
+     op      = (1 if the payload is empty) + 2 * (failing write index + 1)        (0 = none fails)
+     status  -> 4 bits: 0 not started, 1 blocked, 2 finished, 3 skipped (outcomes only),
+                301->4 302->5 304->6 305->7 306->8 401->9 402->10 403->11 404->12 406->13, else 15
+     step    = thread + 4 * (outcome + 16 * (pending_count + 16 * (log length + 16 * (st_0 + 16 * (st_1 + ...)))))
+     log entry = batch id + 64 * (thread + 8 * commit number)
+     result  = commit number + 8 * (code + 8 * (batch id + 64 * log length at return)) *)
 Inductive case :=
-| Case (progs : list (list (bool * Z)))      (* per thread: (empty payload?, failing write index or -1) *)
-       (sched : list Z)                       (* every schedule entry that was executed *)
-       (steps : list (Z * list Z * Z * Z))    (* per entry: outcome, status of every thread, pending_count, log length *)
-       (log : list (Z * Z * Z))               (* the log at the end: (batch id, thread, commit number) *)
-       (results : list (list (Z * Z * Z * Z)))  (* per thread, per commit: (number, code, batch id, log length at return) *)
-       (failed : list Z)                      (* members of the batches handed to fail_batch *)
-       (drained : bool)                       (* every thread ran to completion *)
-       (probe : Z).                           (* 1 = a fresh committer was elected at once afterwards, 0 = not, 2 = not run *)
+| Case (progs : list (list Z))       (* per thread: its commits *)
+       (steps : list Z)              (* every schedule entry that was executed, with what was observed after it *)
+       (log : list Z)                (* the log at the end *)
+       (results : list (list Z))     (* per thread, per commit *)
+       (failed : list Z)             (* batch ids of the members of batches handed to fail_batch *)
+       (drained : bool)              (* every thread ran to completion *)
+       (probe : Z).                  (* 1 = a fresh committer was elected at once afterwards, 0 = not, 2 = not run *)
 
-Definition to_op (e : bool * Z) : op :=
-  Commit (fst e) (if snd e <? 0 then None else Some (Z.to_nat (snd e))).
-Definition to_progs (p : list (list (bool * Z))) : list (list op) := map (map to_op) p.
+Definition to_op (e : Z) : op :=
+  Commit (Z.odd e) (if e / 2 =? 0 then None else Some (Z.to_nat (e / 2 - 1))).
+Definition to_progs (p : list (list Z)) : list (list op) := map (map to_op) p.
+Definition sched_of (steps : list Z) : list nat := map (fun z => Z.to_nat (z mod 4)) steps.
 
 Definition final_and_obs (c : case) : St * list (Z * (list Z * Z * Z)) :=
   match c with
-  | Case progs sched _ _ _ _ _ _ => exec_obs false true (map Z.to_nat sched) (init (to_progs progs))
+  | Case progs steps _ _ _ _ _ => exec_obs false true (sched_of steps) (init (to_progs progs))
   end.
 
 Fixpoint zlist_eq (a b : list Z) : bool :=
@@ -34,16 +42,24 @@ Fixpoint zlist_eq (a b : list Z) : bool :=
   | x :: r, y :: q => (x =? y) && zlist_eq r q
   | _, _ => false
   end.
-Fixpoint list_eq {A B} (eq : A -> B -> bool) (a : list A) (b : list B) : bool :=
-  match a, b with
-  | [], [] => true
-  | x :: r, y :: q => eq x y && list_eq eq r q
-  | _, _ => false
-  end.
 
-Definition step_eq (m : Z * (list Z * Z * Z)) (o : Z * list Z * Z * Z) : bool :=
-  match m, o with
-  | (mo, (mst, mp, ml)), (oo, ost, op_, ol) => (mo =? oo) && zlist_eq mst ost && (mp =? op_) && (ml =? ol)
+Definition status_code (s : Z) : Z :=
+  if s =? 0 then 0 else if s =? 1 then 1 else if s =? 2 then 2 else if s =? 3 then 3
+  else if s =? 301 then 4 else if s =? 302 then 5 else if s =? 304 then 6 else if s =? 305 then 7
+  else if s =? 306 then 8 else if s =? 401 then 9 else if s =? 402 then 10 else if s =? 403 then 11
+  else if s =? 404 then 12 else if s =? 406 then 13 else 15.
+Definition cap15 (x : Z) : Z := if x <? 15 then x else 15.
+Definition enc_step (t : nat) (m : Z * (list Z * Z * Z)) : Z :=
+  match m with
+  | (oc, (sts, pend, ll)) =>
+      Z.of_nat t + 4 * (status_code oc + 16 * (cap15 pend + 16 * (cap15 ll +
+        16 * fold_right (fun st acc => status_code st + 16 * acc) 0 sts)))
+  end.
+Fixpoint steps_eq (sched : list nat) (obs : list (Z * (list Z * Z * Z))) (steps : list Z) : bool :=
+  match sched, obs, steps with
+  | [], [], [] => true
+  | t :: sr, m :: mr, z :: zr => (enc_step t m =? z) && steps_eq sr mr zr
+  | _, _, _ => false
   end.
 
 Fixpoint label_of (subs : list (Z * (nat * Z))) (id : Z) : option (nat * Z) :=
@@ -51,35 +67,34 @@ Fixpoint label_of (subs : list (Z * (nat * Z))) (id : Z) : option (nat * Z) :=
   | [] => None
   | (i, l) :: r => if i =? id then Some l else label_of r id
   end.
-Definition model_log (s : shared) : list (Z * Z * Z) :=
+Definition enc_log (id t k : Z) : Z := id + 64 * (t + 8 * k).
+Definition model_log (s : shared) : list Z :=
   map (fun id => match label_of (subs s) id with
-                 | Some (t, k) => (id, Z.of_nat t, k)
-                 | None => (id, -1, -1)
+                 | Some (t, k) => enc_log id (Z.of_nat t) k
+                 | None => -1
                  end) (log s).
-Definition triple_eq (a b : Z * Z * Z) : bool :=
-  match a, b with (x, y, z), (x', y', z') => (x =? x') && (y =? y') && (z =? z') end.
-Definition quad_eq (a b : Z * Z * Z * Z) : bool :=
-  match a, b with (x, y, z, w), (x', y', z', w') => (x =? x') && (y =? y') && (z =? z') && (w =? w') end.
 
 Definition res_code (r : result) : Z := match r with ROk => 0 | RErrReported => 1 | RErrFlush => 2 end.
-Definition model_results (s : shared) (t : nat) : list (Z * Z * Z * Z) :=
-  map (fun a => (a_k a, res_code (a_res a), match a_res a with ROk => a_id a | _ => 0 end, a_loglen a))
+Definition enc_res (k code bid ll : Z) : Z := k + 8 * (code + 8 * (bid + 64 * ll)).
+Definition model_results (s : shared) (t : nat) : list Z :=
+  map (fun a => enc_res (a_k a) (res_code (a_res a)) (match a_res a with ROk => a_id a | _ => 0 end) (a_loglen a))
       (filter (fun a => Nat.eqb (a_thr a) t) (acks s)).
-Fixpoint results_eq (s : shared) (t : nat) (rs : list (list (Z * Z * Z * Z))) : bool :=
+Fixpoint results_eq (s : shared) (t : nat) (rs : list (list Z)) : bool :=
   match rs with
   | [] => true
-  | r :: q => list_eq quad_eq (model_results s t) r && results_eq s (S t) q
+  | r :: q => zlist_eq (model_results s t) r && results_eq s (S t) q
   end.
 
 (* does the model reproduce everything the harness observed? *)
 Definition model_agrees (c : case) : bool :=
   match c with
-  | Case progs sched steps log_ results failed drained probe =>
+  | Case progs steps log_ results failed drained probe =>
       let (sf, obs) := final_and_obs c in
       (Nat.eqb (length results) (length progs)) &&
+      (Nat.leb (length progs) 4) &&
       forallb (fun p => nonempty p) progs &&
-      list_eq step_eq obs steps &&
-      list_eq triple_eq (model_log (sh sf)) log_ &&
+      steps_eq (sched_of steps) obs steps &&
+      zlist_eq (model_log (sh sf)) log_ &&
       results_eq (sh sf) 0 results &&
       zlist_eq (att_fail (sh sf)) failed &&
       Bool.eqb (all_finished sf) drained &&
@@ -87,29 +102,31 @@ Definition model_agrees (c : case) : bool :=
   end.
 
 (* ---- the property itself, on the observations only *)
-Fixpoint nodup_ids (l : list (Z * Z * Z)) (seen : list Z) : bool :=
+Definition log_id (e : Z) : Z := e mod 64.
+Fixpoint nodup_ids (l : list Z) (seen : list Z) : bool :=
   match l with
   | [] => true
-  | (id, _, _) :: r => negb (memZ id seen) && nodup_ids r (id :: seen)
+  | e :: r => negb (memZ (log_id e) seen) && nodup_ids r (log_id e :: seen)
   end.
 (* a commit that returned Ok with batch id b (b <> 0: it had a payload) must find ITS payload
    (same batch id, its thread, its commit number) among the entries the log had at the return,
-   and must not be a member of a batch whose write failed *)
-Definition result_ok (log_ : list (Z * Z * Z)) (failed : list Z) (t : Z) (r : Z * Z * Z * Z) : bool :=
-  match r with
-  | (k, code, bid, ll) =>
-      if (code =? 0) && negb (bid =? 0) then
-        existsb (triple_eq (bid, t, k)) (firstn (Z.to_nat ll) log_) && negb (memZ bid failed)
-      else negb (code =? 3) && negb (code =? 4)     (* no time-out, no foreign error *)
-  end.
-Fixpoint results_ok (log_ : list (Z * Z * Z)) (failed : list Z) (t : Z) (rs : list (list (Z * Z * Z * Z))) : bool :=
+   and must not be a member of a batch whose write failed; nobody may time out *)
+Definition result_ok (log_ : list Z) (failed : list Z) (t : Z) (r : Z) : bool :=
+  let k := r mod 8 in
+  let code := (r / 8) mod 8 in
+  let bid := (r / 64) mod 64 in
+  let ll := r / 4096 in
+  if (code =? 0) && negb (bid =? 0) then
+    memZ (enc_log bid t k) (firstn (Z.to_nat ll) log_) && negb (memZ bid failed)
+  else negb (code =? 3) && negb (code =? 4).
+Fixpoint results_ok (log_ : list Z) (failed : list Z) (t : Z) (rs : list (list Z)) : bool :=
   match rs with
   | [] => true
   | r :: q => forallb (result_ok log_ failed t) r && results_ok log_ failed (t + 1) q
   end.
 Definition spec_ok (c : case) : bool :=
   match c with
-  | Case _ _ _ log_ results failed drained probe =>
+  | Case _ _ log_ results failed drained probe =>
       nodup_ids log_ [] && results_ok log_ failed 0 results && drained && (probe =? 1)
   end.
 
